@@ -2,13 +2,13 @@ import UF.Proofs.HostRuleDispatch
 /-
   C18 — hosts-file lines yield exactly the listed names with the given address.
 
-  Model: UF/Model/HostRule.lean (`splitNextByWhitespace`, `newHostRule`, `HostRule.matches`,
+  Model: UF/Model/HostRule.lean (`splitNextByWhitespace`, `newHostRule`, `hostRuleMatches`,
   `isCommentLine`, `findCosmeticRuleMarker`, `newRuleKind`) mirrors rules/host.go, rules/rule.go
   and rules/cosmetic.go after the D11 repair.  Reference: UF/Spec/HostLine.lean (the
   blank-separated tokens of the text before the comment sign; the line grammar as text builders).
   `netip.ParseAddr` is an arbitrary oracle, `filterutil.IsDomainName` an arbitrary predicate.
 -/
-namespace UF
+namespace UF.H
 open Bytes
 
 /-- Iterating `splitNextByWhitespace` (the loop of `NewHostRule`) over a string that does not
@@ -111,8 +111,8 @@ theorem c18_comment_inert' (ext : Ext) (dn : Bytes → Bool) (pre c₁ c₂ : By
   cases newHostRule ext dn pre listID <;> rfl
 
 /-- A host rule matches a queried name iff it is one of its names. -/
-theorem host_match_iff (r : HostRule) (h : Bytes) : r.matches h = true ↔ h ∈ r.hostnames := by
-  unfold HostRule.matches
+theorem host_match_iff (r : HostRule) (h : Bytes) : hostRuleMatches r h = true ↔ h ∈ r.hostnames := by
+  unfold hostRuleMatches
   constructor
   · intro hm
     simp only [Bool.or_eq_true, Bool.and_eq_true, beq_iff_eq, List.any_eq_true] at hm
@@ -208,4 +208,4 @@ example : isHostToken (lit "::ffff:1.2.3.4") = true ∧
 example : isCosmeticLine (lit "0.0.0.0 example.org##.banner") = true := by decide
 example : hostLineCarveOut (lit "0.0.0.0 example.org##.banner") = true := by decide
 
-end UF
+end UF.H
